@@ -137,7 +137,7 @@ F_BinOps ==
     [] Family = "laws"   -> {">", "==", "%", "/", "and", "in", ".."}
     [] Family = "ovl"    -> {"+", "*", "==", ">"}
     [] Family = "ovlb"   -> {"+"}
-    [] Family = "promo"  -> {"+", "-", "*", "/", "%"} \cup CmpOps
+    [] Family = "promo"  -> {"+", "-", "*", "/", "%", "**"} \cup CmpOps
     [] Family = "oversize" -> {"and", "or", "==", "+"}
     [] Family = "ovconst" -> {".."}
 
@@ -364,7 +364,12 @@ ArgRetypes(t) == (t.k \in {"call", "meth"} /\ \E i \in 1..Len(t.args) :
 OvlTreeT == OverloadT(Tree, "")
 OvlCaseT == [src |-> Src(Tree), osrc |-> Src(OvlTreeT), n |-> n, overloaded |-> OvlTreeT # Tree, table |-> TRUE,
              cdz |-> HasConstDivZero(OvlTreeT), cbp |-> FALSE, runs |-> Runs(OvlTreeT)]
-EmitOvlT == (Complete /\ EmitMode = "ovlt" /\ ~ArgRetypes(Tree)) => PrintT(ToJson(OvlCaseT))
+(* (AddAny returns a sequence: an equality one of whose operands contains a `+` would compare sequences of  *)
+(* different Go types, which the language definition leaves open - generator scope, as in F_Guard)          *)
+RECURSIVE EqOverPlus(_)
+EqOverPlus(t) == (t.k = "bin" /\ t.op \in {"==", "!=", "in", "not in"} /\ (HasPlus(t.l) \/ HasPlus(t.r)))
+                 \/ \E i \in 1..Len(Kids(t)) : EqOverPlus(Kids(t)[i])
+EmitOvlT == (Complete /\ EmitMode = "ovlt" /\ ~ArgRetypes(Tree) /\ ~EqOverPlus(Tree)) => PrintT(ToJson(OvlCaseT))
 
 EmitOvl == (Complete /\ EmitMode = "ovl" /\ ~ArgRetypes(Tree)) =>
              PrintT(ToJson(OvlCase)) /\ ("Any" \in Mentions(Tree) \/ PrintT(ToJson(OvlCaseF)))
